@@ -1,0 +1,4 @@
+// Package verifhook exposes internal switches and entry points to an external
+// verification harness. Everything except this file is guarded by the build
+// tag "verif"; without the tag the package is empty.
+package verifhook
